@@ -120,9 +120,10 @@ static Boolean ChkIntFormatNatHex(tIntCheckCtx* pCtx, char Ch) {
 }
 
 static Boolean ChkIntFormatDef(tIntCheckCtx* pCtx, char Ch) {
-    UNUSED(pCtx);
     UNUSED(Ch);
-    return True;
+    /* a constant without prefix never begins with a letter, whatever RADIX says:
+       FACE is a symbol, 0FACE a number */
+    return (pCtx->ExprLen > 0) && as_isdigit(*pCtx->pExpr);
 }
 
 static tIntFormatList const IntFormatList_All[] = {
